@@ -42,6 +42,13 @@ structure RS where
   steps : Nat := 0
   spurious : Nat := 0
   err : Option String := none
+  -- several calling threads, one after the other (driver-level bookkeeping outside the model, whose
+  -- `tok` is the token of the *current* caller): the parked token of the other caller, and for every
+  -- worker the caller of the task it received last (whom its unpark is addressed to)
+  callers : Nat := 1
+  caller : Nat := 0
+  savedMain : Bool := false
+  taskCaller : List (Nat × Nat) := []
 
 def apply (r : RS) (a : Act) (what : String) : RS :=
   match stepFn r.s a with
@@ -54,9 +61,17 @@ def stepEv (r : RS) (t : Nat) (e : E) : RS :=
   match e with
   | .new v =>
     if r.s.todo.head? ≠ some v then { r with err := some s!"task block initialised with ref_count {v}, the history says {r.s.todo.head?}" }
-    else apply r .begin "begin"
+    else
+      -- odd-numbered broadcasts of a two-caller history come from a fresh thread (token unset)
+      let newCaller := if r.callers > 1 then r.s.done % 2 else 0
+      let r := if newCaller = r.caller then r
+        else if newCaller = 1 then { r with savedMain := r.s.tok, s := { r.s with tok := false }, caller := 1 }
+        else { r with s := { r.s with tok := r.savedMain }, caller := 0 }
+      apply r .begin "begin"
   | .spawn i => { r with fresh := i :: r.fresh }
-  | .recv => apply r .send s!"send to worker {t}"
+  | .recv =>
+    let r := { r with taskCaller := (t, r.caller) :: r.taskCaller.filter (·.1 ≠ t) }
+    apply r .send s!"send to worker {t}"
   | .user 1 0 => apply r .sendDone "caller starts its own call"
   | .user 2 0 => apply r .crun "caller's own call ends"
   | .user 1 _ => r
@@ -67,7 +82,14 @@ def stepEv (r : RS) (t : Nat) (e : E) : RS :=
   | .fsub v _ =>
     if v ≠ r.s.rc then { r with err := some s!"fetch_sub read {v}, the model's ref_count is {r.s.rc}" }
     else apply r (.worker (t - 1)) s!"decrement on worker {t}"
-  | .unpark => apply r (.worker (t - 1)) s!"unpark by worker {t}"
+  | .unpark =>
+    let target := ((r.taskCaller.find? (·.1 = t)).map (·.2)).getD r.caller
+    let r' := apply r (.worker (t - 1)) s!"unpark by worker {t}"
+    if target = r.caller ∨ r'.err.isSome then r'
+    else
+      -- a stale unpark addressed to the other calling thread: the current caller's token is untouched
+      let r' := { r' with s := { r'.s with tok := r.s.tok } }
+      if target = 0 then { r' with savedMain := true } else r'
   | .recvEnter =>
     if r.fresh.contains t then { r with fresh := r.fresh.erase t } else apply r (.worker (t - 1)) s!"worker {t} back in recv"
   | .recvDisc => apply r (.wexit (t - 1)) s!"exit of worker {t}"
@@ -110,7 +132,8 @@ def handle (args : List String) (obs : String) : Option Reply := do
   let evs ← (((lw.getD 1 "-").splitOn ",").filter (fun s => s ≠ "" ∧ s ≠ "-")).mapM parseEv
   let relOk := evs.all fun (_, e) => match e with | .fsub _ o => o == 1 || o == 3 || o == 4 | _ => true
   let acqOk := evs.all fun (_, e) => match e with | .load _ o => o == 2 || o == 4 | _ => true
-  let r := evs.foldl (fun r (t, e) => stepEv r t e) { s := init hist tok0 relOk acqOk }
+  let callers := ((get "callers").bind String.toNat?).getD 1
+  let r := evs.foldl (fun r (t, e) => stepEv r t e) { s := init hist tok0 relOk acqOk, callers := callers }
   let result :=
     match r.err with
     | some e => s!"reject:{e}"
@@ -125,6 +148,6 @@ def handle (args : List String) (obs : String) : Option Reply := do
   some { model := s!"{left} | {result}", verdict := if v.isEmpty then "ok" else "bad:" ++ " ;; ".intercalate v,
          tag := if hist.isEmpty then "trivial-empty" else
                 s!"b{hist.length}-max{hist.foldl max 0}" ++ (if tok0 then "-staletoken" else "") ++
-                (if r.spurious > 0 then "-spurious" else "") ++ (if (get "panic").getD "-" ≠ "-" then "-panic" else "") }
+                (if r.spurious > 0 then "-spurious" else "") ++ (if callers > 1 then "-2callers" else "") ++ (if (get "panic").getD "-" ≠ "-" then "-panic" else "") }
 
 end Driver.Pool
